@@ -926,8 +926,11 @@ def check_C18(ck):
             else:
                 cur = []
     lt = lifetime_programs(ck, tier_n(ck, 6, 40))
+    # the catalogs of definitions: one function registered as a definition of two methods, and of the same method
+    # in several policies (every registration object adds its own record to its own method's catalog)
+    pt = policy_template_programs(ck, tier_n(ck, 4, 20))
     ck.coverage = proof_coverage(ck, ["C18", "C18src"], {
-        "registration_object_lifetimes": lt,
+        "registration_object_lifetimes": lt, "functions_shared_between_methods_and_policies": pt,
         "translated_source": {"file": "lean/Yomm2/Generated/StaticListSrc.lean (tools/cpp2lean.py, from clang's AST of the header)",
                               "histories_run_on_translated_source": len(scripts), "differences_from_implementation": len(src_bad),
                               "translator_messages": getattr(ck.lean, "notes", [])},
@@ -1156,6 +1159,63 @@ def check_C05(ck):
         name, lines, payload = first
         payload.update(property="C05", script=lines, seed=ck.seed)
         ck.violation(verif.write_replay("C05", name, payload), True)
+    # boundary lookups: from the hash parameters the implementation installed at the first update of a checked
+    # script, unregistered ids are constructed whose index is exactly the installed length, one beyond, the last
+    # bucket and the largest index; the script is run again (a fresh process draws the same multipliers) with these
+    # lookups appended: every one must be reported as an unknown class, and ASan watches the control table
+    brng = random.Random(repr((ck.seed, "C05-boundary")))
+    boundary = []
+    for name, lines in scripts:
+        if len(boundary) >= tier_n(ck, 80, 600) or name not in meta or meta[name][0] not in ("checked", "proj") or "update" not in lines:
+            continue
+        out = impl_out.get(name, [])
+        k = lines.index("update")
+        first = []
+        seen = False
+        for l in out:
+            if l.startswith("update"):
+                if seen:
+                    break
+                seen = True
+                if l != "update ok":
+                    break
+            elif seen:
+                first.append(l)
+        h, ctl, vsize, vp = parse_hash(first)
+        if not h or ctl is None:
+            continue
+        mult, shift, length, mn, mx = h
+        regs = set(meta[name][3][0])
+        buckets = 1 << (64 - shift) if shift < 64 else 0
+        wanted = [t for t in (length, length + 1, length - 1, buckets - 1) if 0 <= t < buckets]
+        crafted = []
+        for t in wanted:
+            for _ in range(20000):
+                x = brng.getrandbits(64)
+                if ((mult * x) & (2 ** 64 - 1)) >> shift == t and x not in regs and x != 2 ** 64 - 1:
+                    crafted.append((t, x))
+                    break
+        if crafted:
+            pre = [l for l in lines[:k + 1]]
+            extra = []
+            for t, x in crafted:
+                extra += ["echo L%d:0" % x, "lookup %d" % x]
+            boundary.append(("b-" + name, pre + ["dump"] + extra, {"length": length, "buckets": buckets, "indices": [t for t, _ in crafted]}))
+    if boundary:
+        bscripts = [(n_, ls) for n_, ls, _ in boundary]
+        bout, _ = verif.run_impl(ck.exe, bscripts)
+        for (n_, ls, info) in boundary:
+            o = verif.visible(bout.get(n_, []))
+            for kk, l in enumerate(o):
+                m = re.match(r"@L(\d+):0", l)
+                if m and kk + 1 < len(o) and not any(f_ for _, f_ in ck.violations):
+                    res = o[kk + 1]
+                    if res.startswith("skipped"):
+                        continue
+                    if res != "raised unknown_class " + m.group(1):
+                        ck.violation(verif.write_replay("C05", n_, {
+                            "property": "C05", "kind": "failing input: the checked hash does not report an unregistered id whose index lies at the edge of the installed table",
+                            "lookup": int(m.group(1)), "implementation": res, "hash": info, "script": ls, "seed": ck.seed}), True)
     # the bodies of hash_type_id (plain and checked) as translated from the header on this run (HashL.exec, driver
     # --src) answer every lookup of the battery; compared with the compiled functions
     src_out = verif.run_model(verif.inject_rng(scripts, impl_out), mode="--src")
@@ -1176,6 +1236,7 @@ def check_C05(ck):
                 "under the checked policy; non-trivial = distinct history whose first set has >= 2 ids" % maxsize,
         "translated_source_of_hash_type_id": {"file": "lean/Yomm2/Generated/HashSrc.lean (tools/cpp2lean.py)", "lookups_answered_by_the_translated_source": lookups,
                                               "differences_from_compiled_functions": len(src_bad), "translator_messages": getattr(ck.lean, "notes", [])},
+        "boundary_lookups": {"scripts": len(boundary), "ids_crafted_at_the_edge_of_the_table": sum(len(b[2]["indices"]) for b in boundary)},
         "hash_installs_checked_perfect": installs,
         "search_failures_reported": failures,
         "unknown_ids_rejected": unknown_rejected,
@@ -1337,6 +1398,34 @@ def check_C15(ck):
                       "id 2^64-1 is reserved"]
 
 
+def pointer_route_programs(ck, shapes=("single", "second", "virtual")):
+    """the construction routes of virtual_ptr / virtual_shared_ptr on real classes (generated argument-passing
+    programs): from a base pointer, from a pointer of exactly the object's class, const pointees, copies, conversions,
+    final, make_virtual_shared; get / * / ->. Only the lines about these routes are compared here (C11 compares all)."""
+    import hprog
+    pol = "default"
+    programs = [("routes-%s" % s_, hprog.prog_args(s_, pol)) for s_ in shapes]
+    scripts = [("routes-%s" % s_, ["thunk-expect " + s_]) for s_ in shapes]
+    res = hprog.build_and_run(programs, jobs=16)
+    model = verif.run_model(scripts)
+    keep = ("arg kind=vsptr", "arg kind=cvsptr", "arg kind=vptr", "arg kind=make_virtual_shared", "get kind=", "own kind=vsptr", "own kind=cvsptr")
+    compared = 0
+    for name, _ in scripts:
+        rc, so, se = res[name]
+        got = [l for l in so.splitlines() if l.startswith(keep)]
+        want = [l for l in model.get(name, []) if l.startswith(keep)]
+        compared += len(got)
+        if (rc != 0 or got != want) and not any(f_ for _, f_ in ck.violations):
+            diff = [x for x in zip(got, want) if x[0] != x[1]][:3]
+            found = rc is not None and (rc != 0 or bool(diff))
+            ck.violation(verif.write_replay("C09", name, {
+                "property": "C09", "kind": ("failing input: a virtual_ptr / virtual_shared_ptr made by one of the construction routes does not dispatch like a plain reference, "
+                                            "or does not give back the object (or the program crashed inside such a call)" if found else "the generated program does not compile"),
+                "differences(program, required)": diff, "lines_before_the_end": so.splitlines()[-3:], "missing_lines": want[len(got):len(got) + 3],
+                "rc": rc, "stderr": (se or "")[-1200:], "program": "tools/hprog.py prog_args(%r, %r)" % (name.split("-", 1)[1], pol)}), found)
+    return {"programs": len(programs), "route_lines_compared": compared}
+
+
 def check_C09(ck):
     rng = random.Random(repr((ck.seed, "C09")))
     scripts, pairs = load_corpus("C09"), {}
@@ -1438,7 +1527,9 @@ def check_C09(ck):
     if f and not ck.violations:
         f[2].update(property="C09", script=f[1])
         ck.violation(verif.write_replay("C09", f[0], f[2]), True)
+    rp = pointer_route_programs(ck)
     ck.coverage = proof_coverage(ck, ["C09"], {
+        "construction_routes_on_real_classes": rp,
         "evaluations": len(scripts), "distinct_nontrivial": len({repr(l) for _, l in scripts}),
         "rule": "registries with virtual_ptr parameters (shapes P, PV, VPNV, PP) under 8 policies; virtual_ptrs made from a base reference, from the exact "
                 "static type, with final, then copied or moved; every call is made twice, through references and through the virtual_ptrs, and must agree; "
@@ -1477,7 +1568,9 @@ def history_script(rng, pol, length, shapes=None):
             for _ in range(5):
                 t = [rng.choice(d) for d in doms]
                 if all(c in live_c.values() for c in t):
-                    out.append("call %d %s" % (k, " ".join(str(ids[c][0]) for c in t)))
+                    # a third of the calls also follow next from inside the definition that runs: next is recomputed
+                    # by every update (a definition loaded later may land between a definition and its old next)
+                    out.append("%s %d %s" % ("callnext" if rng.random() < 0.35 else "call", k, " ".join(str(ids[c][0]) for c in t)))
         return out
     for step_ in range(length):
         r = rng.random()
@@ -1947,14 +2040,14 @@ def check_C12(ck):
     so_cases = []
     n_so = 2 if ck.tier == "quick" else 8
     for i in range(n_so):
-        perm = list(range(6))
+        perm = list(range(7))
         rng.shuffle(perm)
         checked = (i % 2 == 0)
         tampers = []
         if checked:
             for _ in range(3 if ck.tier == "quick" else 5):
-                mname = rng.choice(["m1", "m2", "m3", "m4", "m5"])
-                ar = {"m1": 1, "m2": 1, "m3": 2, "m4": 3, "m5": 2, "m6": 1}[mname]
+                mname = rng.choice(["m1", "m2", "m3", "m4", "m5", "m7", "m7"])
+                ar = {"m1": 1, "m2": 1, "m3": 2, "m4": 3, "m5": 2, "m6": 1, "m7": 2}[mname]
                 which = "slot" if ar == 1 or rng.random() < 0.5 else "stride"
                 idx = rng.randrange(ar if which == "slot" else ar - 1)
                 tampers.append((mname, which, idx, rng.randint(1, 3)))
@@ -1969,7 +2062,7 @@ def check_C12(ck):
             return ls[:k], ls[k + 1:]
         la, la2 = phases(a[1])
         lb, lb2 = phases(b[1])
-        ok = a[0] == 0 and b[0] == 0 and la == lb and "static 1 1 1 1 1 1" in b[1] and "static 0 0 0 0 0 0" in a[1]
+        ok = a[0] == 0 and b[0] == 0 and la == lb and "static 1 1 1 1 1 1 1" in b[1] and "static 0 0 0 0 0 0 0" in a[1]
         entry = {"case": name, "declaration_order": perm, "checked_policy": checked, "calls_compared": len([l for l in la if " -> " in l]),
                  "stage_b_equals_stage_a": la == lb, "tampers": []}
         if not ok and not any(f_ for _, f_ in ck.violations):
@@ -2004,7 +2097,7 @@ def check_C12(ck):
             if [l for l in la2 if l.startswith("ss ")] != [l for l in lb2 if l.startswith("ss ")]:
                 p2bad = ("installed arrays differ in phase 2", la2[:6], lb2[:6])
             for mname in sorted(inst2):
-                ar = {"m1": 1, "m2": 1, "m3": 2, "m4": 3, "m5": 2, "m6": 1}[mname]
+                ar = {"m1": 1, "m2": 1, "m3": 2, "m4": 3, "m5": 2, "m6": 1, "m7": 2}[mname]
                 want = verif.run_model([("t", ["static-check %d %s | %s" % (ar, " ".join(map(str, inst.get(mname, []))), " ".join(map(str, inst2[mname])))])]).get("t", [""])[0].replace("static-check ", "")
                 ca = [l for l in la2 if l.startswith(mname + "(")]
                 cb = [l for l in lb2 if l.startswith(mname + "(")]
@@ -2024,7 +2117,7 @@ def check_C12(ck):
                     "program": "tools/hprog.py static_offsets_case(%r, %r, %r)" % (name, perm, checked)}), True)
         for (mname, which, idx, delta), t_ in zip(tampers, r.get("tampers", [])):
             desc, rc, so, se = t_
-            ar = {"m1": 1, "m2": 1, "m3": 2, "m4": 3, "m5": 2, "m6": 1}[mname]
+            ar = {"m1": 1, "m2": 1, "m3": 2, "m4": 3, "m5": 2, "m6": 1, "m7": 2}[mname]
             st = list(inst.get(mname, []))
             pos = idx if which == "slot" else ar + idx
             if pos < len(st):
@@ -2041,7 +2134,7 @@ def check_C12(ck):
                 ck.violation(verif.write_replay("C12", name + "-tamper", {
                     "property": "C12", "kind": "failing input: wrong static offsets are not rejected by the debug-build cross-check as the model prescribes",
                     "tamper": desc, "model": want, "calls": calls[:5], "rc": rc, "stderr": se[-800:],
-                    "program": "tools/hprog.py static_offsets_case(%r, %r, %r, %r)" % (name, perm, checked, tampers)}), rc == 0)
+                    "program": "tools/hprog.py static_offsets_case(%r, %r, %r, %r)" % (name, perm, checked, tampers)}), rc is not None)
         so_report.append(entry)
     ck.coverage = proof_coverage(ck, ["C12"], {
         "evaluations": len(scripts) + len(so_cases), "distinct_nontrivial": len({repr(l) for _, l in scripts}) + len(so_cases),
@@ -2201,8 +2294,14 @@ def rand_type(rng, pool, depth=0):
         return "std::" + rng.choice(["vector", "shared_ptr", "pair"]) + "<" + ", ".join(rand_type(rng, pool, depth + 1) for _ in range(rng.randint(1, 2))) + ">" + rng.choice(["", " const&", "&"])
     if r < 0.85:
         return rand_qualified(rng, pool) + rng.choice(["<", " <"]) + ", ".join(rand_type(rng, pool, depth + 1) for _ in range(rng.randint(1, 2))) + ">" + rng.choice(["", "*"])
-    if r < 0.93:
+    if r < 0.90:
         return "yorel::yomm2::virtual_<" + rand_type(rng, pool, depth + 1) + ">"
+    if r < 0.95:
+        # pointers to members, as the demangler writes them: `T C::*` and `R (C::*)(args)` (a qualified name followed by `::*`)
+        cls = rand_qualified(rng, pool)
+        if rng.random() < 0.5:
+            return rand_type(rng, pool, depth + 1) + " " + cls + "::*"
+        return rand_type(rng, pool, depth + 1) + " (" + cls + "::*)(" + ", ".join(rand_type(rng, pool, depth + 1) for _ in range(rng.randint(0, 2))) + ")" + rng.choice(["", " const"])
     return rand_type(rng, pool, depth + 1) + " (" + ", ".join(rand_type(rng, pool, depth + 1) for _ in range(rng.randint(0, 3))) + ")"
 
 
@@ -2460,8 +2559,10 @@ def check_C11(ck):
         if rc != 0 or g1 != w1:
             if not ck.violations:
                 diff = [x for x in zip(g1, w1) if x[0] != x[1]][:3]
-                found = rc == 0 and bool(diff)
+                # a crash inside a call is a failing input too (the lines printed so far show where)
+                found = rc is not None and (rc != 0 or bool(diff))
                 path = verif.write_replay("C11", name, {
+                    "last_lines_before_the_end": g1[-3:],
                     "property": "C11", "kind": ("failing input: a definition did not receive the caller's argument as specified" if found else
                                                 "the generated program does not compile, crashed, or differs in shape from the model"),
                     "shape": s, "policy": p, "differences(program, required)": diff, "rc": rc, "stderr": se[-1500:],
